@@ -606,3 +606,60 @@ func canonEq(a, b ssa.Value) bool {
 	}
 	return a == b || canonValue(a) == canonValue(b)
 }
+
+// paramArgs: when v is a parameter of an unexported module function (or of an instance of a
+// generic one) that is only ever called directly, the values its call sites pass for it —
+// "the helper's back-off is the one its caller built". nil when v is not such a parameter.
+func (c *Ctx) paramArgs(v ssa.Value) []ssa.Value {
+	prm, ok := stripConv(v).(*ssa.Parameter)
+	if !ok {
+		return nil
+	}
+	f := prm.Parent()
+	if f == nil || !unexportedName(f) || f.Parent() != nil {
+		return nil
+	}
+	idx := -1
+	for i, p := range f.Params {
+		if p == prm {
+			idx = i
+		}
+	}
+	if idx < 0 {
+		return nil
+	}
+	same := func(g *ssa.Function) bool {
+		if g == f {
+			return true
+		}
+		return g != nil && g.Origin() != nil && (g.Origin() == f || g.Origin() == f.Origin())
+	}
+	var out []ssa.Value
+	for _, fn := range c.ModFn {
+		bad := false
+		allInstrs(fn, true, func(in ssa.Instruction) {
+			cc := asCall(in)
+			if cc == nil {
+				// the function used as a value: its callers are not all known
+				for _, op := range in.Operands(nil) {
+					if op != nil && *op != nil {
+						if g, isF := (*op).(*ssa.Function); isF && same(g) {
+							bad = true
+						}
+					}
+				}
+				return
+			}
+			if g := cc.StaticCallee(); same(g) {
+				args := callArgs(cc)
+				if idx < len(args) {
+					out = append(out, args[idx])
+				}
+			}
+		})
+		if bad {
+			return nil
+		}
+	}
+	return out
+}
